@@ -30,6 +30,16 @@ Theorem C19_at_most_once_on_error : forall fs entry fuel e tr,
   NoDup t /\ (forall f, In f t -> reachable fs entry f) /\ postorder fs entry t.
 Proof. exact at_most_once_on_error_lemma. Qed.
 
+(* REPL: over a whole session (any number of inputs, each importing whatever it likes under whatever
+   spelling) every module's top level runs at most once, and no input makes the loader diverge.
+   (The invariant behind this is the program-independent part of the one used above; it is kept
+   across inputs because the loader's memo now lives as long as the session, KF-C19-9.) *)
+Theorem C19_session_init_once : forall fs root fuel inputs,
+  (fuel >= fuel_bound fs)%nat ->
+  let rs := run_session fs root fuel inputs (session_start root) in
+  (forall r, In r rs -> r <> Fuel) /\ NoDup (mtrace_of (session_events rs)).
+Proof. exact session_init_once_lemma. Qed.
+
 (* a reachable cycle of any length, however its imports are spelled, is an error: never a
    completed run and never out of fuel *)
 Theorem C19_cycle_reported : forall fs entry fuel f,
